@@ -166,8 +166,10 @@ PROVED = {
  "C08": "the proxy model keeps gopls on the compilation of the current buffer after every history of events (invariant by induction over histories).",
  "C09": "position/range/URI translation lemmas of the proxy model for every request kind.",
  "C10": "the CLI emits nothing unless parsing succeeded without error; the indentation rule as an iff; nested content under void/self-closed/inline-content "
-        "elements and one-line comments and unknown filters are refused in every parser state; that every error is located inside the file is by fault "
-        "injection only: partial.",
+        "elements and one-line comments and unknown filters are refused in every parser state; every token the lexer delivers for ANY input, error tokens "
+        "included, has a line number inside the file (1 <= line <= 1 + line breaks; a generic cursor invariant principle instantiated with 'the reader holds "
+        "exactly the input, one line counter more than line breaks read at most'), and the parser reports a lexer error with that token's position; "
+        "columns and the errors the parser makes itself are located by fault injection only: partial.",
  "C11": "for EVERY input the generator accepts: the root holds Go-code runs and templates only, the import list has no duplicates and none of goht's own, "
         "and the output is header ++ each item's own code; Go-code tokens are written verbatim; a template starts with `func ` + exactly its declaration "
         "(parser-wide stack invariant + emitter simulation).",
